@@ -1027,8 +1027,9 @@ impl ExpressionTreeVisualizer {
 }
 
 fn compare_int_float(x: i64, y: f64) -> Ordering {
+    // NaN is greater than every number (as in the order of REAL values), not equal to all of them
     if y.is_nan() {
-        return Ordering::Equal;
+        return Ordering::Less;
     }
 
     // Outside the i64 range (2^63 = 9223372036854775808)
